@@ -435,7 +435,9 @@ func solveOne(o *Obligation, file string, altFiles []string, secs int, thorough 
 	}
 	if o.Kind == "frame" {
 		// decided by the syntactic frame pass
-		if o.Goal.IsTrue() {
+		if o.Forced != "" {
+			o.Status = o.Forced
+		} else if o.Goal.IsTrue() {
 			o.Status = "proved"
 		} else {
 			o.Status = "failed"
